@@ -44,16 +44,27 @@ func zzC07Raw(gtp5g bool, handled bool, n int) {
 	zzTrack(lp.s)
 	lp.s.Start(&lp.wg)
 	zzYield()
-	nid := ie.NewNodeID(zzNodeA, "", "")
-	lp.feed(zzMarshal(zzAssocReq(1, zzNodeA)), zzAddrA)
-	lp.feed(zzMarshal(zzEstReq(2, nid, ie.NewFSEID(0x70, []byte{127, 0, 0, 1}, nil), ie.NewCreateFAR(ie.NewFARID(9), ie.NewApplyAction(2)))), zzAddrA)
-	lp.feed(zzMarshal(zzEstReq(3, nid, ie.NewFSEID(0x71, []byte{127, 0, 0, 1}, nil), ie.NewCreateFAR(ie.NewFARID(8), ie.NewApplyAction(2)))), zzAddrA)
-	lp.feed(zzMarshal(zzDelReq(2, 4)), zzAddrA)
-	zzAssert("C07.raw.prefix", zzSentCount() == 4)
-	by, err := lp.s.lnode.Sess(1)
-	zzAssert("C07.raw.bystander", err == nil)
+	// prefix state: a fresh server (nothing associated, empty session table), or an association with
+	// a bystander session and a second session that was created and deleted again
+	fresh := handled && nondetBool("fresh-server")
+	var by *Sess
+	if !fresh {
+		nid := ie.NewNodeID(zzNodeA, "", "")
+		lp.feed(zzMarshal(zzAssocReq(1, zzNodeA)), zzAddrA)
+		lp.feed(zzMarshal(zzEstReq(2, nid, ie.NewFSEID(0x70, []byte{127, 0, 0, 1}, nil), ie.NewCreateFAR(ie.NewFARID(9), ie.NewApplyAction(2)))), zzAddrA)
+		lp.feed(zzMarshal(zzEstReq(3, nid, ie.NewFSEID(0x71, []byte{127, 0, 0, 1}, nil), ie.NewCreateFAR(ie.NewFARID(8), ie.NewApplyAction(2)))), zzAddrA)
+		lp.feed(zzMarshal(zzDelReq(2, 4)), zzAddrA)
+		zzAssert("C07.raw.prefix", zzSentCount() == 4)
+		var err error
+		by, err = lp.s.lnode.Sess(1)
+		zzAssert("C07.raw.bystander", err == nil)
+	}
 
 	lp.feed(dg, from)
+	if zzTier() == 1 && handled && n <= 14 && nondetBool("retransmitted") {
+		// the same octets again: a retransmission of a (possibly malformed) request
+		lp.feed(dg, from)
+	}
 
 	before := zzSentCount()
 	lp.feed(zzMarshal(zzHbReq(0x777777)), probe)
@@ -75,7 +86,7 @@ func zzC07Raw(gtp5g bool, handled bool, n int) {
 			addressed = true
 		}
 	}
-	if !addressed {
+	if !addressed && !fresh {
 		got, err := lp.s.lnode.Sess(1)
 		zzAssert("C07.raw.bystander-intact", err == nil && got == by && len(by.FARIDs) == 1)
 	}
